@@ -9,7 +9,7 @@ C01 - bound constraints are never violated at any evaluation point (exactly).
     (OUTER) are outputs of those accessors / inside the box.
 """
 from ..harness import Harness, run_property
-from .. import core, sym, step, outer
+from .. import core, sym, step, outer, runstart
 
 
 def _finite(E, arrs):
@@ -103,6 +103,7 @@ def harnesses(tier, seed):
                       assumptions=["finite inputs, xl < xu"], expect=['remove_scaling-of-unit-box-point-exactly-in-box'], nproc=1, max_replays=2))
     hs += step.step_harnesses(tier, seed, 'C01')
     hs += outer.outer_harnesses(tier, seed, 'C01')
+    hs += runstart.start_harnesses(tier, seed, 'C01')
     return hs
 
 
